@@ -3974,6 +3974,7 @@ class Wallet(object):
         transaction.outgoing_tx = True
         for o in output_arr:
             if isinstance(o, Output):
+                o.output_n = len(transaction.outputs)
                 transaction.outputs.append(o)
                 amount_total_output += o.value
             else:
